@@ -159,7 +159,11 @@ func cmdCheck(prop, tier string) int {
 	distinct := map[string]bool{}
 	discharged := 0
 	machineryErr := false
+	nBounded := 0
 	for _, o := range obls {
+		if o.Bounded {
+			nBounded++
+		}
 		byKind[o.Kind]++
 		if o.Res != nil {
 			if o.Txt == "" || !distinct[hashText(o.Txt)] {
@@ -174,7 +178,9 @@ func cmdCheck(prop, tier string) int {
 			distinct[hashText(o.Txt)] = true
 		}
 		if o.ok() {
-			discharged++
+			if !o.Bounded {
+				discharged++
+			}
 			byBackend[o.Res.Backend]++
 			continue
 		}
@@ -285,7 +291,8 @@ func cmdCheck(prop, tier string) int {
 	ev := &Evidence{PropertyID: prop, Tier: tier, Seed: seed(), Level: "proof", WallS: time.Since(t0).Seconds(), Violations: nviol,
 		Assumptions: append(trusted, lemAssume...),
 		Coverage: map[string]interface{}{
-			"obligations":              len(obls),
+			"obligations":              len(obls) - nBounded,
+			"bounded_checks":           nBounded,
 			"discharged":               discharged,
 			"checker_cmd":              fmt.Sprintf("/verif/bin/sigverif check %s --tier %s", prop, tier),
 			"trusted_base":             trusted,
@@ -305,7 +312,7 @@ func cmdCheck(prop, tier string) int {
 		}}
 	writeEvidence(prop, ev)
 	fmt.Printf("%s: %d obligations, %d discharged, %d known-finding, %d violations, %d functions, %d instantiations, %.1fs wall, %.1fs solver\n",
-		prop, len(obls), discharged, len(obls)-discharged-len(failed), nviol, len(funcs), insts, time.Since(t0).Seconds(), solverTime)
+		prop, len(obls)-nBounded, discharged, len(obls)-nBounded-discharged-len(failed), nviol, len(funcs), insts, time.Since(t0).Seconds(), solverTime)
 	if machineryErr || (len(s.errs) > 0 && nviol == 0) {
 		if len(s.errs) > 0 {
 			// a generator error on code we cannot model: report as violation without input
